@@ -19,6 +19,7 @@ import (
 	"fmt"
 	"go/ast"
 	"go/format"
+	goparser "go/parser"
 	"go/token"
 	"go/types"
 	"os"
@@ -34,6 +35,7 @@ const hookPath = "github.com/formancehq/numscript/internal/verifsim/hook"
 
 func main() {
 	dir := flag.String("dir", ".", "root of the scratch copy of the module")
+	stmtLevel := flag.Bool("stmt", false, "also insert a yield point before every statement (finer interleavings)")
 	flag.Parse()
 	targets := []string{".", "./internal/interpreter"}
 	cfg := &packages.Config{
@@ -57,7 +59,7 @@ func main() {
 	if nerr > 0 {
 		os.Exit(1)
 	}
-	yields, ranges, keys, skipped := 0, 0, 0, 0
+	yields, ranges, keys, skipped, stmtYields := 0, 0, 0, 0, 0
 	for _, p := range pkgs {
 		for i, f := range p.Syntax {
 			name := p.CompiledGoFiles[i]
@@ -122,7 +124,7 @@ func main() {
 				}
 				return true
 			})
-			if !changed {
+			if !changed && !*stmtLevel {
 				continue
 			}
 			astutil.AddNamedImport(p.Fset, f, "verifhook", hookPath)
@@ -138,7 +140,13 @@ func main() {
 				fmt.Fprintln(os.Stderr, "format:", name, err)
 				os.Exit(1)
 			}
-			if err := os.WriteFile(name, buf.Bytes(), 0o644); err != nil {
+			out := buf.Bytes()
+			if *stmtLevel {
+				var n int
+				out, n = spliceStatementYields(name, out, short)
+				stmtYields += n
+			}
+			if err := os.WriteFile(name, out, 0o644); err != nil {
 				fmt.Fprintln(os.Stderr, "write:", err)
 				os.Exit(1)
 			}
@@ -156,7 +164,7 @@ func main() {
 		}
 		os.WriteFile(modfile, []byte(strings.Join(lines, "\n")), 0o644)
 	}
-	fmt.Printf("instrumented: %d yield points, %d map ranges, %d maps.Keys calls, %d map ranges over non-string keys left as is\n", yields, ranges, keys, skipped)
+	fmt.Printf("instrumented: %d function-entry yield points, %d statement-level yield points, %d map ranges, %d maps.Keys calls, %d map ranges over non-string keys left as is\n", yields, stmtYields, ranges, keys, skipped)
 	_ = token.NoPos
 }
 
@@ -179,4 +187,87 @@ func yieldStmt(site string) ast.Stmt {
 		Fun:  &ast.SelectorExpr{X: ast.NewIdent("verifhook"), Sel: ast.NewIdent("Yield")},
 		Args: []ast.Expr{&ast.BasicLit{Kind: token.STRING, Value: strconv.Quote(site)}},
 	}}
+}
+
+// spliceStatementYields re-parses the already instrumented file and splices
+// `verifhook.Yield("...");` textually in front of every statement of every
+// function body (blocks, case and comm clauses) except the first of a list
+// (the function-entry yield is already there) and declarations. Working on
+// the text keeps the printer out of it.
+func spliceStatementYields(name string, src []byte, short string) ([]byte, int) {
+	fset := token.NewFileSet()
+	f, err := goparser.ParseFile(fset, name, src, goparser.ParseComments)
+	if err != nil {
+		fmt.Fprintln(os.Stderr, "reparse:", name, err)
+		os.Exit(1)
+	}
+	isYield := func(s ast.Stmt) bool {
+		es, ok := s.(*ast.ExprStmt)
+		if !ok {
+			return false
+		}
+		call, ok := es.X.(*ast.CallExpr)
+		if !ok {
+			return false
+		}
+		sel, ok := call.Fun.(*ast.SelectorExpr)
+		if !ok {
+			return false
+		}
+		id, ok := sel.X.(*ast.Ident)
+		return ok && id.Name == "verifhook" && sel.Sel.Name == "Yield"
+	}
+	type ins struct {
+		off  int
+		text string
+	}
+	var all []ins
+	collect := func(list []ast.Stmt) {
+		for i, st := range list {
+			if i == 0 || isYield(st) || isYield(list[i-1]) {
+				continue
+			}
+			switch st.(type) {
+			case *ast.DeclStmt, *ast.EmptyStmt, *ast.CaseClause, *ast.CommClause:
+				continue
+			}
+			pos := fset.Position(st.Pos())
+			all = append(all, ins{pos.Offset, fmt.Sprintf("verifhook.Yield(%q); ", fmt.Sprintf("%s.stmt@%s:%d", short, filepath.Base(pos.Filename), pos.Line))})
+		}
+	}
+	inFunc := 0
+	ast.Inspect(f, func(node ast.Node) bool {
+		switch b := node.(type) {
+		case *ast.FuncDecl:
+			_ = b
+			inFunc++
+		case *ast.BlockStmt:
+			collect(b.List)
+		case *ast.CaseClause:
+			collect(b.Body)
+		case *ast.CommClause:
+			collect(b.Body)
+		}
+		return true
+	})
+	if len(all) == 0 {
+		return src, 0
+	}
+	// splice from the end so that offsets stay valid
+	for i := 0; i < len(all); i++ {
+		for j := i + 1; j < len(all); j++ {
+			if all[j].off > all[i].off {
+				all[i], all[j] = all[j], all[i]
+			}
+		}
+	}
+	out := append([]byte{}, src...)
+	for _, in := range all {
+		out = append(out[:in.off], append([]byte(in.text), out[in.off:]...)...)
+	}
+	if !bytes.Contains(out, []byte("verifsim/hook")) {
+		// a file whose functions got no entry yield cannot have statement yields either
+		return src, 0
+	}
+	return out, len(all)
 }
